@@ -60,9 +60,32 @@ type Sched struct {
 	stateKey   func() string // digest of shared state (cache, lock) supplied by the harness
 	locks      map[*vsync.Mutex]bool
 	divergence string
+	observing  bool // the scheduler goroutine itself is calling library code (state key): no scheduling points
+}
+
+// observe runs a harness observation (the state key) on the scheduler goroutine. Library code reached from it may use
+// the shim's mutexes (an accessor that synchronises internally): those operations are not scheduling points - every
+// thread is parked - and a mutex found held by a parked thread makes the observation report "blocked" instead of
+// handing the scheduler goroutine to the scheduler.
+func (s *Sched) observe(f func() string) (out string) {
+	s.observing = true
+	defer func() {
+		s.observing = false
+		if r := recover(); r != nil {
+			out = "OBSERVATION-BLOCKED:" + fmt.Sprint(r)
+		}
+	}()
+	return f()
 }
 
 func (s *Sched) Lock(m *vsync.Mutex) {
+	if s.observing {
+		if m.Held {
+			panic("mutex held by a parked thread")
+		}
+		m.Held, m.Owner = true, -2
+		return
+	}
 	t := s.cur
 	s.locks[m] = true
 	t.pend, t.pendM = opLock, m
@@ -75,6 +98,10 @@ func (s *Sched) Lock(m *vsync.Mutex) {
 }
 
 func (s *Sched) Unlock(m *vsync.Mutex) {
+	if s.observing {
+		m.Held = false
+		return
+	}
 	t := s.cur
 	if !m.Held {
 		panic("sync: unlock of unlocked mutex")
@@ -190,7 +217,7 @@ func runSchedule(setup func(t *thr), bodies []func(t *thr), prefix []int, stateK
 				fmt.Fprintf(&sb, "%d:%d:%v:%s|", t.id, t.points, t.done, hashStr(strings.Join(t.obs, ";")))
 			}
 			fmt.Fprintf(&sb, "run=%d|", running)
-			sb.WriteString(stateKey())
+			sb.WriteString(s.observe(stateKey))
 			pr.key = sb.String()
 		}
 		x.points = append(x.points, pr)
